@@ -25,7 +25,7 @@ var rec = ev.For("C07", "exploration",
 	"case = (field type or codec, timestamps, values, encoder, destination buffers); non-trivial = length >= 2 and (the timestamp or value encoder chose a non-raw encoding (RLE / simple8b / gorilla / bit-packed / snappy) or the input contains an extreme-pool value); distinct by the byte rendering of (type, timestamps, values)")
 
 func init() {
-	rec.Assume("Encoder destination buffers are nil (what every production caller passes) or zero-length slices over a dirty backing array; non-zero-length destination buffers are not exercised.")
+	rec.Assume("Encoder destination buffers are nil (what every production caller passes) or zero-length slices over a dirty backing array; non-zero-length destination buffers are not exercised, and a zero-length input is always paired with a nil buffer.")
 	rec.Assume("A NaN input must be rejected with an error or round-trip unchanged (float.go: 'NaN cannot be stored'); the batch float encoder may additionally reject NaN-free blocks whose running sum is NaN (+Inf and -Inf in one block, or an overflowed sum meeting the opposite infinity): an explicit rejection, recorded as an observation, not a violation.")
 	rec.Assume("Values.Encode is not called with zero values (documented to panic); zero-length sequences are exercised at the codec level only.")
 }
